@@ -107,8 +107,8 @@ func (e *verifC10Env) step() {
 		_ = db.Unlock(ctx, 1, []LockType{LockTypePending, LockTypeReserved, LockTypeShared})
 		return
 	}
-	act := rt.Choose("env.action", 3)
-	e.acted += " [" + []string{"wal-write", "checkpoint(+restart)", "checkpoint+restart+write"}[act] + " at " + at + "]"
+	act := rt.Choose("env.action", 4)
+	e.acted += " [" + []string{"wal-write", "checkpoint(+restart)", "checkpoint+restart+write", "checkpoint+restart+rolled-back frames"}[act] + " at " + at + "]"
 	if act != 0 && e.window {
 		e.ckptInWindow = true
 	}
@@ -123,7 +123,7 @@ func (e *verifC10Env) step() {
 				e.record()
 			}
 		}
-	case 1, 2: // application checkpoint: backfill under CKPT + READ0, then restart the log if READ1-4 + WRITE are free (2: and write the next transaction into the restarted log)
+	case 1, 2, 3: // application checkpoint: backfill under CKPT + READ0, then restart the log if READ1-4 + WRITE are free (2: and write the next transaction into the restarted log)
 		ok, _ := db.TryLocks(ctx, 1, []LockType{LockTypeCkpt})
 		if ok {
 			ok, _ = db.TryLocks(ctx, 1, []LockType{LockTypeRead0})
@@ -152,6 +152,15 @@ func (e *verifC10Env) step() {
 						if e.m.verifC03Release(ctx, e.w, "c10.env.wal2") {
 							e.record()
 						}
+					} else if act == 3 {
+						// the writer spills a frame without a commit mark over the old generation's frames and
+						// then rolls back: nothing is committed, the position does not move
+						e.m.txSize = e.m.pageN
+						e.m.verifWriteFrame(ctx, db, e.m.capOff, 1, 0, e.m.c1, e.m.c2)
+						pos := db.Pos()
+						_ = db.Unlock(ctx, 1, []LockType{LockTypeWrite})
+						rt.Check(db.Pos() == pos, "harness: rolled-back frames are not captured")
+						rt.Reach("c10.env.rolledback")
 					} else {
 						_ = db.Unlock(ctx, 1, []LockType{LockTypeWrite})
 					}
